@@ -586,7 +586,7 @@ def check_numeq(ctx, prog):
                 continue
             for sv in vals:
                 for ov in others:
-                    r = scansim.Run(prog, f, {}, mems={'_type': en[tname], member: sv})
+                    r = scansim.Run(prog, f, {}, mems={'_type': en[tname], member: sv}, methods={'*': 'interp'})
                     r.vars[f['params'][0]['id']] = ov
                     runs += 1
                     try:
@@ -606,7 +606,7 @@ def check_numeq(ctx, prog):
             for tname in ('NONE', 'NUL', 'BOOL', 'STRING', 'SSTRING', 'ARRAY', 'OBJ'):
                 if tname not in en:
                     continue
-                r = scansim.Run(prog, f, {}, mems={'_type': en[tname]})
+                r = scansim.Run(prog, f, {}, mems={'_type': en[tname]}, methods={'*': 'interp'})
                 r.vars[f['params'][0]['id']] = others[0]
                 runs += 1
                 try:
